@@ -12,7 +12,8 @@
 namespace mpi = boost::mpi;
 using namespace pMPI;
 
-enum Mode { M_SKEL_WORLD = 0, M_SKEL_SPLIT = 1, M_LOOP_MASTERWORKS = 2, M_LOOP_NOMASTER = 3, M_LOOP_POOL = 4 };
+enum Mode { M_SKEL_WORLD = 0, M_SKEL_SPLIT = 1, M_LOOP_MASTERWORKS = 2, M_LOOP_NOMASTER = 3, M_LOOP_POOL = 4, M_LOOP_SWAP = 5 };
+// M_LOOP_SWAP: like M_LOOP_POOL, but ONE master object lives across the rounds and is re-armed with MPIMaster::swap (fresh task ids per round)
 
 struct Exec { int world_rank, comm_rank; long seq; };
 struct Recorder {
@@ -38,6 +39,15 @@ struct RecWrap {
 static std::vector<int> ilist(const std::string& s, char sep = ',') { std::vector<int> v; for (auto& t : hc::split(s, sep)) if (!t.empty()) v.push_back(atoi(t.c_str())); return v; }
 static std::string jlist(const std::vector<int>& v, char sep = ',') { std::string o; for (size_t i = 0; i < v.size(); i++) { if (i) o += sep; o += std::to_string(v[i]); } return o; }
 
+// task ids of one round in the pool / swap modes: the first nj entries of the configured list; the swap mode uses a fresh slice per round
+static std::vector<int> round_tids(int mode, const hc::Cfg& cfg, const std::vector<int>& J, int round) {
+    std::vector<int> all = ilist(cfg.s("tids")), out;
+    size_t off = 0;
+    if (mode == M_LOOP_SWAP) for (int r = 0; r < round; r++) off += (size_t)J[r];
+    for (int j = 0; j < J[round]; j++) { size_t k = off + (size_t)j; out.push_back(k < all.size() ? all[k] : 1000 + (int)k); }
+    return out;
+}
+
 // invariants on the master's public state, evaluated at every master step of the hand-written loops
 static void master_invariants(MPIMaster& m, const char* where) {
     std::ostringstream os;
@@ -59,6 +69,7 @@ static void job_body(int group, int round, int id, const mpi::communicator& comm
 
 // one rank of one group: R rounds on 'comm'
 static void run_rounds(int mode, int group, const mpi::communicator& comm, const std::vector<int>& J, hc::Cfg& cfg, uint64_t cseed, int world_rank) {
+    std::unique_ptr<MPIMaster> persistent;   // M_LOOP_SWAP: the one master object that is re-armed every round
     for (int round = 0; round < (int)J.size(); round++) {
         int nj = J[round];
         if (mode == M_SKEL_WORLD || mode == M_SKEL_SPLIT) {
@@ -76,16 +87,22 @@ static void run_rounds(int mode, int group, const mpi::communicator& comm, const
         } else {
             int root = (int)cfg.i("root", 0) % comm.size();
             std::vector<int> pool, tids;
-            if (mode == M_LOOP_POOL) { pool = ilist(cfg.s("pool")); tids = ilist(cfg.s("tids")); tids.resize(std::min((int)tids.size(), nj)); while ((int)tids.size() < nj) tids.push_back(100 + (int)tids.size()); }
+            if (mode == M_LOOP_POOL || mode == M_LOOP_SWAP) { pool = ilist(cfg.s("pool")); tids = round_tids(mode, cfg, J, round); }
             bool in_pool = mode == M_LOOP_MASTERWORKS || (mode == M_LOOP_NOMASTER && comm.rank() != root) ||
-                           (mode == M_LOOP_POOL && std::find(pool.begin(), pool.end(), comm.rank()) != pool.end());
+                           ((mode == M_LOOP_POOL || mode == M_LOOP_SWAP) && std::find(pool.begin(), pool.end(), comm.rank()) != pool.end());
             std::unique_ptr<MPIWorker> worker;
             if (in_pool) worker.reset(new MPIWorker(comm, root));
-            std::unique_ptr<MPIMaster> disp;
+            std::unique_ptr<MPIMaster> fresh;
+            MPIMaster* disp = nullptr;
             if (comm.rank() == root) {
-                if (mode == M_LOOP_MASTERWORKS) disp.reset(new MPIMaster(comm, (size_t)nj, true));
-                else if (mode == M_LOOP_NOMASTER) disp.reset(new MPIMaster(comm, (size_t)nj, false));
-                else disp.reset(new MPIMaster(comm, pool, tids));
+                if (mode == M_LOOP_MASTERWORKS) fresh.reset(new MPIMaster(comm, (size_t)nj, true));
+                else if (mode == M_LOOP_NOMASTER) fresh.reset(new MPIMaster(comm, (size_t)nj, false));
+                else if (mode == M_LOOP_POOL || !persistent) fresh.reset(new MPIMaster(comm, pool, tids));
+                if (mode == M_LOOP_SWAP) {
+                    if (!persistent) persistent = std::move(fresh);
+                    else { MPIMaster next(comm, pool, tids); persistent->swap(next); }   // re-arm the master that already dispatched a round
+                    disp = persistent.get();
+                } else disp = fresh.get();
                 if (cfg.i("early", 0)) disp->order(); // as test/mpi_dispatcher_test.cpp does before its barrier
             }
             comm.barrier();
@@ -117,10 +134,10 @@ static hc::Outcome run_one(hc::RunSpec& rs) {
     bool small = r.pct(30);
     int P = small ? r.range(1, 3) : (r.pct(50) ? r.range(2, 6) : r.range(1, 16));
     c.def("P", P); P = std::max(1, std::min(16, (int)c.i("P"))); c.set("P", P);
-    int mode; { int x = r.below(100); mode = x < 45 ? 0 : x < 60 ? 1 : x < 75 ? 2 : x < 87 ? 3 : 4; }
+    int mode; { int x = r.below(100); mode = x < 45 ? 0 : x < 60 ? 1 : x < 73 ? 2 : x < 84 ? 3 : x < 93 ? 4 : 5; }
     c.def("mode", mode); mode = (int)c.i("mode");
     if (mode == M_LOOP_NOMASTER && P < 2) mode = M_LOOP_MASTERWORKS;
-    if (mode < 0 || mode > 4) mode = 0;
+    if (mode < 0 || mode > 5) mode = 0;
     c.set("mode", mode);
     int G = mode == M_SKEL_SPLIT ? r.range(1, std::min(P, 4)) : 1;
     c.def("G", G); G = std::max(1, std::min(P, (int)c.i("G"))); if (mode != M_SKEL_SPLIT) G = 1; c.set("G", G);
@@ -139,7 +156,7 @@ static hc::Outcome run_one(hc::RunSpec& rs) {
     { std::string s; for (int g = 0; g < G; g++) { if (g) s += ';'; s += jlist(J[g]); } c.set("J", s); }
     c.def("root", mode >= 2 ? r.below(P) : 0);
     c.def("early", r.pct(30));
-    if (mode == M_LOOP_POOL) {
+    if (mode == M_LOOP_POOL || mode == M_LOOP_SWAP) {
         std::vector<int> pool; for (int p = 0; p < P; p++) if (r.pct(60)) pool.push_back(p);
         if (pool.empty()) pool.push_back(r.below(P));
         for (int i = (int)pool.size() - 1; i > 0; i--) std::swap(pool[i], pool[r.below(i + 1)]);
@@ -147,7 +164,7 @@ static hc::Outcome run_one(hc::RunSpec& rs) {
         std::vector<int> pl = ilist(c.s("pool")), pl2; for (int x : pl) if (x >= 0 && x < P && std::find(pl2.begin(), pl2.end(), x) == pl2.end()) pl2.push_back(x);
         if (pl2.empty()) pl2.push_back(0);
         c.set("pool", jlist(pl2));
-        std::vector<int> tids; std::set<int> used; for (int j = 0; j < 60; j++) { int t; do t = r.below(500); while (!used.insert(t).second); tids.push_back(t); }
+        std::vector<int> tids; std::set<int> used; for (int j = 0; j < 400; j++) { int t; do t = r.below(900); while (!used.insert(t).second); tids.push_back(t); }
         c.def("tids", jlist(tids));
     }
     c.def("work", r.pick(std::vector<int>{0, 5, 50, 500}));
@@ -188,7 +205,7 @@ static hc::Outcome run_one(hc::RunSpec& rs) {
             for (int round = 0; round < (int)J[g].size(); round++) {
                 int nj = J[g][round];
                 std::vector<int> ids;
-                if (mode == M_LOOP_POOL) { ids = ilist(c.s("tids")); ids.resize(std::min((int)ids.size(), nj)); while ((int)ids.size() < nj) ids.push_back(100 + (int)ids.size()); }
+                if (mode == M_LOOP_POOL || mode == M_LOOP_SWAP) ids = round_tids(mode, c, J[g], round);
                 else for (int j = 0; j < nj; j++) ids.push_back(j);
                 std::map<JobId, WorkerId> truth;
                 for (int id : ids) {
